@@ -578,6 +578,7 @@ func (c *client) keepalive() {
 		}
 
 		id := c.conn.Context().NextReqId()
+		verifhook.Point("keepalive:ping-id", uint64(id), verifhook.ID(c.conn))
 
 		hid := new(int32)
 		*hid = int32(id)
